@@ -201,6 +201,7 @@ handlers!(hd6, hd6_some, hd6_ok, A, B, C, D, E, F);
 pub fn run_case(id: &str, f: impl FnOnce() -> String + std::panic::UnwindSafe) {
     take_log();
     RELEASED.store(false, std::sync::atomic::Ordering::SeqCst);
+    BOOMED.store(false, std::sync::atomic::Ordering::SeqCst);
     let r = std::panic::catch_unwind(f);
     RELEASED.store(true, std::sync::atomic::Ordering::SeqCst);
     let res = match r {
@@ -249,6 +250,7 @@ pub fn boom_i(id: i64) -> impl Fn(i64) -> i64 + Send + Sync + 'static {
     log(format!("E{}", id));
     move |x| {
         log(format!("C{}({})", id, x.show()));
+        BOOMED.store(true, std::sync::atomic::Ordering::SeqCst);
         panic!("boom")
     }
 }
@@ -256,6 +258,7 @@ pub fn boom_o(id: i64) -> impl Fn(i64) -> Option<i64> + Send + Sync + 'static {
     log(format!("E{}", id));
     move |x| {
         log(format!("C{}({})", id, x.show()));
+        BOOMED.store(true, std::sync::atomic::Ordering::SeqCst);
         panic!("boom")
     }
 }
@@ -263,12 +266,14 @@ pub fn boom_r(id: i64) -> impl Fn(i64) -> Result<i64, i64> + Send + Sync + 'stat
     log(format!("E{}", id));
     move |x| {
         log(format!("C{}({})", id, x.show()));
+        BOOMED.store(true, std::sync::atomic::Ordering::SeqCst);
         panic!("boom")
     }
 }
 /// a panicking operand EXPRESSION (evaluated where the operand stands)
 pub fn boom_e<T>(id: i64) -> T {
     log(format!("E{}", id));
+    BOOMED.store(true, std::sync::atomic::Ordering::SeqCst);
     panic!("boom")
 }
 
@@ -351,6 +356,7 @@ pub fn boom_w<T: Show>(id: i64) -> impl Fn(T) -> T + Send + Sync + 'static {
     log(format!("E{}", id));
     move |x| {
         log(format!("C{}({})", id, x.show()));
+        BOOMED.store(true, std::sync::atomic::Ordering::SeqCst);
         panic!("boom")
     }
 }
@@ -466,17 +472,22 @@ pub fn boom_ins<T: Show>(id: i64) -> impl Fn(&T) + Send + Sync + Copy + 'static 
     log(format!("E{}", id));
     move |x| {
         log(format!("C{}({})", id, x.show()));
+        BOOMED.store(true, std::sync::atomic::Ordering::SeqCst);
         panic!("boom")
     }
 }
 // ---- a callback that waits until the harness has seen the macro expression return or panic (C18: the caller is never left blocked) ----
 pub static RELEASED: std::sync::atomic::AtomicBool = std::sync::atomic::AtomicBool::new(false);
+pub static BOOMED: std::sync::atomic::AtomicBool = std::sync::atomic::AtomicBool::new(false);
 pub fn wait_rel<T: Show>(id: i64) -> impl Fn(T) -> T + Send + Sync + Copy + 'static {
     log(format!("E{}", id));
     move |x| {
         log(format!("C{}({})", id, x.show()));
+        // give a panicking sibling the time to panic; then, IF one has panicked, wait until the harness has seen the macro
+        // expression return or panic: the caller must get there without waiting for this thread
+        std::thread::sleep(std::time::Duration::from_millis(15));
         let t0 = std::time::Instant::now();
-        while !RELEASED.load(std::sync::atomic::Ordering::SeqCst) {
+        while BOOMED.load(std::sync::atomic::Ordering::SeqCst) && !RELEASED.load(std::sync::atomic::Ordering::SeqCst) {
             if t0.elapsed() > std::time::Duration::from_millis(1500) {
                 log(format!("TIMEOUT{}", id));
                 break;
